@@ -12,7 +12,7 @@ cp $DEMO $OUT/demo_test.go
 WT=$(mktemp -d /tmp/confirm_XXXXXX)
 LOG=$OUT/confirm.log
 : > $LOG
-git -C /repo worktree add -q --detach $WT 4bfb0a2 >>$LOG 2>&1
+git -C /repo worktree add -q --detach $WT HEAD >>$LOG 2>&1
 cd $WT
 DEMONAME=zz_seed_demo_test.go
 cp $DEMO $WT/$DEMONAME
